@@ -190,6 +190,11 @@ func runC15(c *wk.Ctx) {
 		r := c.Rand("c15ip4", i)
 		c15IP4(c, r.Intn(256), randAddr4(r), randAddr4(r), r.Intn(1400), byte(r.Intn(256)), r.Intn(2) == 0, i)
 	}
+	// (5b) the same completions from several goroutines at once, each in its own buffer (the packet loop answering a DHCP
+	// request while a spoof loop and an API caller's Ping send theirs): the encoders share nothing, so every header must verify
+	if next("IP4.concurrent") {
+		c15Concurrent(c, int(c.N(40_000, 400_000)))
+	}
 	// (6) ICMP messages through the send functions (shard 0 only: needs a session)
 	if c.Shard == 0 || c.Only >= 0 {
 		c15ICMP(c, &idx)
@@ -246,6 +251,60 @@ func c15IP4(c *wk.Ctx, ttl int, src, dst netip.Addr, plen int, proto byte, appen
 		return
 	}
 	c.Class(fmt.Sprintf("ip4hdr append=%v plen-parity=%d completed-again=%d", appendMode, plen%2, again))
+}
+
+func c15Concurrent(c *wk.Ctx, n int) {
+	c.Eval()
+	const workers = 4
+	type bad struct {
+		n      int
+		sample string
+	}
+	res := make(chan bad, workers)
+	for w := 0; w < workers; w++ {
+		go func(w int) {
+			var b bad
+			buf := make([]byte, 20+64)
+			msg := make([]byte, 40)
+			for i := 0; i < n; i++ {
+				src := netip.AddrFrom4([4]byte{10, byte(w), byte(i >> 8), byte(i)})
+				dst := netip.AddrFrom4([4]byte{192, 168, byte(i >> 4), byte(w*61 + i)})
+				for k := range buf[:20] {
+					buf[k] = 0
+				}
+				ip := packet.EncodeIP4(buf[:20:len(buf)], byte(i), src, dst)
+				out := ip.SetPayload(buf[20:20+(i+w)%64], byte(1+w))
+				if len(out) < 20 || !refdec.Verify1071(out[:20]) {
+					if b.n++; b.sample == "" {
+						b.sample = fmt.Sprintf("goroutine %d iteration %d: % x", w, i, []byte(out[:min(20, len(out))]))
+					}
+				}
+				for k := range msg {
+					msg[k] = byte(i*7 + k*w)
+				}
+				if got, want := packet.Checksum(msg), bits.ReverseBytes16(refdec.Sum1071(msg)); got != want {
+					if b.n++; b.sample == "" {
+						b.sample = fmt.Sprintf("goroutine %d iteration %d: Checksum(% x) = %#04x", w, i, msg, got)
+					}
+				}
+			}
+			res <- b
+		}(w)
+	}
+	total, sample := 0, ""
+	for w := 0; w < workers; w++ {
+		b := <-res
+		if total += b.n; sample == "" {
+			sample = b.sample
+		}
+	}
+	if total > 0 {
+		c.Viol("diff:IP4.checksum:concurrent", fmt.Sprintf("%d of %d headers / sums completed by %d goroutines at once (each in its own buffer) do not verify; first: %s", total, 2*workers*n, workers, sample),
+			map[string]any{"goroutines": workers, "iterations": n})
+		return
+	}
+	c.Obs("headers_completed_concurrently", int64(workers*n))
+	c.Class("ip4hdr concurrent senders")
 }
 
 func c15ICMP(c *wk.Ctx, idx *int64) {
